@@ -20,3 +20,5 @@ require (
 )
 
 replace github.com/energomonitor/bisquitt => /repo
+
+replace golang.org/x/sync => ./third_party/xsync
